@@ -111,6 +111,30 @@ Example c08_example :
   wf_check string_dom ex_aut (compute_rank ex_aut) [0; 1; 2]%N = true /\ arity_ok string_dom ex_aut = true.
 Proof. vm_compute. auto. Qed.
 
+(** ** construction, last stage (partial: the earlier stages of the builder are decided by
+    exploration): populate_scopes — modelled in Model/Scopes.v and compared with every
+    dump — returns, with neither an index panic nor exhausted fuel, on every graph whose
+    states are handed to it parents first (petgraph's toposort on an acyclic graph), whose
+    edges lead to states and whose constraint orders are readable; the fuel bound is the
+    C12 weight of the keys that occur in constraints. *)
+From PM Require Import Model.Automaton Model.Scopes Cert.WfCheck Proofs.SchemeTotal Proofs.ScopesTotal.
+
+Theorem c08_populate_scopes_total_partial :
+  forall (K V M H P : Type) (D : DomOps K V M H P) (rank : K -> nat),
+    (forall k r, In r (req D k) -> rank r < rank k) ->
+  forall (A : automaton K P) (fuel : nat),
+    (forall k, In k (all_args A) -> S (kw (req D) rank k) < fuel) ->
+    (forall s e, In s (au_states A) -> In e (a_out s) -> exists t, get_state A (e_target e) = Ok t) ->
+  forall order : list N,
+    (forall s, In s (au_states A) -> In (a_id s) order) ->
+    (forall id, In id order -> exists s, get_state A id = Ok s) ->
+    (forall l1 id l2, order = l1 ++ id :: l2 -> forall se, In se (incoming A id) -> In (fst se) l1) ->
+    (forall l1 id l2 s, order = l1 ++ id :: l2 -> get_state A id = Ok s ->
+       forall e, In e (a_out s) -> In (e_target e) l2) ->
+    (forall s, In s (au_states A) -> exists cts, cons_transitions s = Ok cts) ->
+    exists sc, populate_scopes D fuel A order = Ok sc.
+Proof. exact @populate_scopes_total. Qed.
+
 Print Assumptions c08_toposort_next_total_partial.
 Print Assumptions c08_string_run_total.
 Print Assumptions c08_matrix_run_total.
@@ -124,3 +148,4 @@ Print Assumptions c08_portgraph_single_total.
 Print Assumptions c08_portgraph_naive_total.
 Print Assumptions c08_string_retain_total_partial.
 Print Assumptions c08_matrix_retain_total_partial.
+Print Assumptions c08_populate_scopes_total_partial.
